@@ -1,6 +1,6 @@
 (* C04 - Approximate superadditive-monotone bounds are sound, ordered, self-consistent.
    Statements only; proofs in theories/SAMSound.v, SAMOrder.v, SAMKnowledge.v.  All theorems hold for EVERY repetition count r. *)
-From ICG Require Import Prelude Bits Table Bounds FoldLemmas BoundsSpec SASound SAEquiv SATight SAKnowledge SAMSpec SAMSound SAMOrder SAMKnowledge Checks ChecksSAM.
+From ICG Require Import Prelude Bits Table Bounds FoldLemmas BoundsSpec SASound SAEquiv SATight SAKnowledge SAMSpec SAMSound SAMOrder SAMKnowledge Checks ChecksSAM GameOps HistorySound.
 From ICG Require Import RegistryTypes gen.Registry gen.RegistryLinkProps.
 
 (* soundness: for every superadditive, monotone non-increasing hidden game, every knowledge set containing the minimal
@@ -18,6 +18,16 @@ Theorem C04_sam_defined :
   forall n r K v t, MinK n K -> agrees n t K v -> exists t', compute_sam n r t = Some t'.
 Proof. exact sam_defined. Qed.
 Print Assumptions C04_sam_defined.
+
+(* soundness after any history of public operations carrying true values (as C01_sa_sound_history) *)
+Theorem C04_sam_sound_history :
+  forall n r v ops t',
+    SA n v -> Mono n v -> v 0%N == 0 ->
+    forallb public_op ops = true -> Forall (truthful n v) ops ->
+    MinK n (Kn (run n ops init_table)) -> compute_sam n r (run n ops init_table) = Some t' ->
+    forall s, bounded n s -> sound_at n (Kn (run n ops init_table)) v (run n ops init_table) t' s.
+Proof. exact sam_sound_history. Qed.
+Print Assumptions C04_sam_sound_history.
 
 (* never looser than the plain superadditive bounds *)
 Theorem C04_sam_tighter_than_sa :
